@@ -22,8 +22,10 @@ DIMS = [
     ('decos', [0, 1, 2]),
     ('nest', ['func', 'method', 'cls', 'module', 'asyncfunc']),
     ('opener', ['"""', "'''", 'r"""', 'R"""', 'u"""', '"""Summary', '"""+summary+blank']),
-    ('layout', ['free_first', 'free_prose', 'two_groups', 'google', 'google_after_args', 'google_second']),
-    ('fail', ['none', 'exc1', 'exc_ml', 'helper', 'modfunc', 'want1', 'want2']),
+    ('layout', ['free_first', 'free_prose', 'two_groups', 'google', 'google_after_args', 'google_second',
+                'free_after_ignored', 'free_ignored_between']),
+    ('fail', ['none', 'exc1', 'exc_ml', 'helper', 'modfunc', 'want1', 'want2',
+              'exc_tryfinally', 'exc_tryexcept', 'exc_for', 'exc_with']),
     ('pos', ['last', 'first', 'middle']),
     ('before', ['nothing', 'want', 'multiline']),
 ]
@@ -60,6 +62,14 @@ def doctest_lines(fail, pos, before):
         'exc_ml': [('>>> y = [1,', None), ('...      1/0,', 'fail'), ('...      3]', None)],
         'helper': [('>>> h()', 'fail')],
         'modfunc': [('>>> boom()', 'fail')],
+        # the raising line sits inside a compound statement that goes on executing other lines (the finally
+        # suite, the non-matching except clauses) while the exception propagates
+        'exc_tryfinally': [('>>> try:', None), ('...     1/0', 'fail'), ('... finally:', None), ('...     z = 1', None), ('...     z = 2', None)],
+        'exc_tryexcept': [('>>> try:', None), ('...     1/0', 'fail'), ('... except KeyError:', None), ('...     z = 1', None),
+                          ('... except IndexError:', None), ('...     z = 2', None)],
+        'exc_for': [('>>> for i in range(2):', None), ('...     z = i', None), ('...     1/0', 'fail'), ('...     z = 3', None)],
+        'exc_with': [('>>> import contextlib', None), ('>>> with contextlib.suppress(KeyError):', None), ('...     z = 0', None),
+                     ('...     1/0', 'fail'), ('...     z = 3', None)],
         'want1': [('>>> print(1)', None), ('2', 'fail')],
         'want2': [('>>> for i in range(2):', None), ('...     print(i)', None), ('0', 'fail'), ('9', None)],
     }[fail]
@@ -154,6 +164,24 @@ def build(cfg):
         prompts_free.append(w.emit(I + '>>> g0 = 0'))
         w.emit('')
         w.emit(I + 'Prose between the groups.')
+        w.emit('')
+        emit_body(I, None)
+    elif layout == 'free_after_ignored':
+        # a block that freeform extraction must skip (prompts under "Ignore:") before the first runnable prompt
+        w.emit(I + 'Ignore:')
+        w.emit(I + '    >>> ig = 1/0')
+        w.emit(I + '    >>> ig2 = 2')
+        w.emit('')
+        w.emit(I + 'Now the real thing.')
+        w.emit('')
+        prompts_free.append(emit_body(I, None))
+    elif layout == 'free_ignored_between':
+        prompts_free.append(w.emit(I + '>>> g0 = 0'))
+        w.emit('')
+        w.emit(I + 'Script:')
+        w.emit(I + '    >>> ig = 1/0')
+        w.emit('')
+        w.emit(I + 'Back to the tests.')
         w.emit('')
         emit_body(I, None)
     elif layout == 'google':
